@@ -274,11 +274,21 @@ func genScenario(src *tape.Source) *scenario {
 		// what the half-written oracle is about.
 		sc.Files = sc.Files[:1]
 	}
+	if sc.Cmd == "validate" && input < 6 && src.Intn(6, "c19.missing") == 5 {
+		// an input that cannot be read at all: it fails, and reports must name it
+		sc.Files = append(sc.Files, fileSpec{Name: "missing.sql", Kind: "missing"})
+	}
 	if sc.OutFile != "" && src.Intn(2, "c19.outpre") == 1 {
 		s := "-- previous output that must not be half-overwritten\nSELECT 'old';\n"
 		sc.OutPre = &s
 	}
 	switch {
+	case input == 6 && src.Intn(40, "c19.hugestdin") == 39:
+		// more than the documented 10 MiB stdin limit: must be refused, never cut
+		s := "SELECT 1;\n-- " + strings.Repeat("x", 10*1024*1024+16) + "\n"
+		sc.Stdin = &s
+		sc.Files = []fileSpec{{Name: "f0.sql", Content: s, Mode: 0o644, Kind: "stdin-over-10MiB"}}
+		sc.Args = append(sc.Args, "-")
 	case input == 6:
 		s := sc.Files[0].Content
 		sc.Stdin = &s
@@ -363,6 +373,9 @@ func (p *P) setup(sc *scenario) (dir string, err error) {
 	old := time.Now().Add(-48 * time.Hour).Truncate(time.Second)
 	if sc.UsesFiles || sc.Stdin == nil {
 		for _, f := range sc.Files {
+			if f.Kind == "missing" {
+				continue
+			}
 			fp := filepath.Join(dir, f.Name)
 			if err = os.WriteFile(fp, []byte(f.Content), f.Mode); err != nil {
 				return
@@ -616,6 +629,11 @@ func (p *P) verdictOracles(r *core.Result, sc *scenario, base *outcome) {
 	allAccepted, anyBlank := true, false
 	rejected := map[string]bool{}
 	for _, f := range ins {
+		if f.Kind == "missing" {
+			allAccepted = false
+			rejected[f.Name] = true
+			continue
+		}
 		if blank(f.Content) {
 			anyBlank = true
 			continue
@@ -671,6 +689,9 @@ func (p *P) verdictOracles(r *core.Result, sc *scenario, base *outcome) {
 	for _, f := range sc.Files {
 		if !sc.UsesFiles {
 			break
+		}
+		if f.Kind == "missing" {
+			continue
 		}
 		st := base.Files[f.Name]
 		changed := !st.Exists || st.Content != f.Content
@@ -880,7 +901,7 @@ func (p *P) reportOracle(r *core.Result, sc *scenario, data string, rejected map
 		if rejected[f.Name] {
 			want[f.Name] = true
 		}
-		if blank(f.Content) {
+		if blank(f.Content) && f.Kind != "missing" {
 			delete(named, f.Name) // blank inputs: either verdict is accepted (as in the exit-status oracle)
 		}
 	}
@@ -984,7 +1005,9 @@ func (p *P) faultPasses(r *core.Result, src *tape.Source, sc *scenario, base *ou
 	want := map[string]pair{}
 	if sc.UsesFiles {
 		for _, f := range sc.Files {
-			want[f.Name] = pair{f.Content, base.Files[f.Name].Content}
+			if f.Kind != "missing" {
+				want[f.Name] = pair{f.Content, base.Files[f.Name].Content}
+			}
 		}
 	}
 	if sc.OutPre != nil {
